@@ -385,6 +385,95 @@ def check_fill_in(ctx):
            construct='triangulated graph')
 
 
+def merge_pass(fi, b, free):
+    """`while i < len(A) and j < len(B): if A[i] == B[j]: n += 1; i += 1; j += 1 / elif A[i] < B[j]: i += 1 / else: j += 1`
+    -> (while node, A, B, counter name) when one of the `free` names is such a counter"""
+    for wl in ast.walk(fi.node):
+        if not isinstance(wl, ast.While) or wl.orelse:
+            continue
+        t = wl.test
+        if not (isinstance(t, ast.BoolOp) and isinstance(t.op, ast.And) and len(t.values) == 2):
+            continue
+        idx = {}
+        for v in t.values:
+            if isinstance(v, ast.Compare) and len(v.ops) == 1 and isinstance(v.ops[0], ast.Lt) and isinstance(v.left, ast.Name) \
+                    and isinstance(v.comparators[0], ast.Call) and U(v.comparators[0].func) == 'len' and len(v.comparators[0].args) == 1:
+                idx[v.left.id] = U(v.comparators[0].args[0])
+        if len(idx) != 2 or len(wl.body) != 1 or not isinstance(wl.body[0], ast.If):
+            continue
+        (i, A), (j, B) = sorted(idx.items(), key=lambda kv: kv[1])
+        top = wl.body[0]
+        eq = U(top.test).replace(' ', '')
+        if eq not in ('%s[%s]==%s[%s]' % (A, i, B, j), '%s[%s]==%s[%s]' % (B, j, A, i)):
+            continue
+
+        def incs(stmts):
+            out = {}
+            for st in stmts:
+                if isinstance(st, ast.AugAssign) and isinstance(st.op, ast.Add) and isinstance(st.target, ast.Name) and U(st.value) == '1':
+                    out[st.target.id] = out.get(st.target.id, 0) + 1
+                elif isinstance(st, ast.Assign) and len(st.targets) == 1 and isinstance(st.targets[0], ast.Tuple) and isinstance(st.value, ast.Tuple) \
+                        and len(st.targets[0].elts) == len(st.value.elts):
+                    for tg, vv in zip(st.targets[0].elts, st.value.elts):
+                        if isinstance(tg, ast.Name) and U(vv).replace(' ', '') in (tg.id + '+1', '1+' + tg.id):
+                            out[tg.id] = out.get(tg.id, 0) + 1
+                        else:
+                            return None
+                elif isinstance(st, ast.Assign) and len(st.targets) == 1 and isinstance(st.targets[0], ast.Name) and \
+                        U(st.value).replace(' ', '') in (st.targets[0].id + '+1', '1+' + st.targets[0].id):
+                    out[st.targets[0].id] = out.get(st.targets[0].id, 0) + 1
+                else:
+                    return None
+            return out
+        both = incs(top.body)
+        if both is None or both.get(i) != 1 or both.get(j) != 1:
+            continue
+        counters = [k for k in both if k not in (i, j) and both[k] == 1]
+        if len(counters) != 1 or counters[0] not in free:
+            continue
+        rest = top.orelse
+        if len(rest) != 1 or not isinstance(rest[0], ast.If):
+            continue
+        lt = rest[0]
+        ltt = U(lt.test).replace(' ', '')
+        a_small = ltt in ('%s[%s]<%s[%s]' % (A, i, B, j), '%s[%s]>%s[%s]' % (B, j, A, i))
+        b_small = ltt in ('%s[%s]<%s[%s]' % (B, j, A, i), '%s[%s]>%s[%s]' % (A, i, B, j))
+        x, y = incs(lt.body), incs(lt.orelse)
+        if x is None or y is None:
+            continue
+        if a_small and x == {i: 1} and y == {j: 1} or b_small and x == {j: 1} and y == {i: 1}:
+            return wl, A, B, counters[0]
+    return None
+
+
+def clique_element_order(fi, b):
+    """how the attribute tuples that range over the pair loop are ordered: 'sorted' (tuple(sorted(..))), 'domain' (domain.canonical(..)), None"""
+    from ..engines.builders import Builder, strip_wrappers
+    if len(b.gens) != 1:
+        return None
+    it = strip_wrappers(b.gens[0][1])
+    if not (isinstance(it, ast.Call) and U(it.func).endswith('combinations') and it.args):
+        return None
+    seq = it.args[0]
+    # follow `sorted(..)` / list wrappers down to a comprehension
+    for _ in range(4):
+        seq = strip_wrappers(seq)
+        if isinstance(seq, ast.Call) and isinstance(seq.func, ast.Name) and seq.func.id == 'sorted' and seq.args:
+            seq = seq.args[0]
+        else:
+            break
+    cb = Builder.of_comprehension(seq)
+    if cb is None:
+        return None
+    e = cb.elt
+    e = strip_wrappers(e)
+    if isinstance(e, ast.Call) and isinstance(e.func, ast.Name) and e.func.id == 'sorted' and len(e.args) == 1 and not e.keywords:
+        return 'sorted'
+    if isinstance(e, ast.Call) and isinstance(e.func, ast.Attribute) and e.func.attr == 'canonical':
+        return 'domain'
+    return None
+
+
 def check_tree_connected(ctx):
     """the clique graph handed to minimum_spanning_tree has an edge for EVERY pair of maximal cliques, weighted by minus the size of
     the intersection.  Stated on set-builder terms: `for c1, c2 in combinations(..): G.add_edge(c1, c2, weight=w)` and
@@ -436,7 +525,55 @@ def check_tree_connected(ctx):
                       (U(c.func) in known or (isinstance(c.func, ast.Attribute) and c.func.attr in ('intersection', 'union', 'difference')))})
     free = sorted({n.id for n in ast.walk(b.renamed(b.elt)) if isinstance(n, ast.Name)} - {'_g0_0', '_g0_1'} - known
                   - {U(c.func) for c in ast.walk(b.elt) if isinstance(c, ast.Call)})
-    if free and w not in want:
+    if free and w not in want and ends:
+        # a counting merge pass over the two clique tuples: equals |c1 & c2| exactly when both are strictly increasing under `<`
+        mp = merge_pass(fi, b, free)
+        if mp is not None:
+            wnode, A, B, counter = mp
+            ok_w = w.replace(' ', '') == '-' + counter
+            elem = clique_element_order(fi, b)
+            # the pass may run over locally sorted copies of the two tuples
+            loopvars = {n.id for t_, _ in b.gens for n in ast.walk(t_) if isinstance(n, ast.Name)}
+            tags = {v: elem for v in loopvars}
+            host = [st for st in ast.walk(fi.node) if isinstance(st, ast.For) and wnode in st.body]
+            if len(host) != 1:
+                raise AnalysisError('_make_tree: merge pass outside the pair loop')
+            for st in host[0].body:
+                if st is wnode:
+                    break
+                pairs_ = []
+                if isinstance(st, ast.Assign) and len(st.targets) == 1:
+                    tg, vv = st.targets[0], st.value
+                    if isinstance(tg, ast.Tuple) and isinstance(vv, ast.Tuple) and len(tg.elts) == len(vv.elts):
+                        pairs_ = list(zip(tg.elts, vv.elts))
+                    else:
+                        pairs_ = [(tg, vv)]
+                new_tags = {}
+                for tg, vv in pairs_:
+                    if not isinstance(tg, ast.Name):
+                        continue
+                    v_ = strip_wrappers(vv)
+                    if isinstance(v_, ast.Call) and isinstance(v_.func, ast.Name) and v_.func.id == 'sorted' and len(v_.args) == 1 and not v_.keywords:
+                        new_tags[tg.id] = 'sorted'
+                    elif isinstance(v_, ast.Name):
+                        new_tags[tg.id] = tags.get(v_.id)
+                    else:
+                        new_tags[tg.id] = None
+                tags.update(new_tags)
+            local = [tags.get(A), tags.get(B)]
+            elem = None if None in local else ('sorted' if all(x == 'sorted' for x in local) else 'domain')
+            if elem is None or not ok_w:
+                raise AnalysisError('_make_tree: merge-pass weight `%s` over cliques whose element order is not recognised' % w)
+            ctx.ob('tree-connected', fi, wnode, elem == 'sorted',
+                   'the weight of a clique pair is computed by a merge pass (`%s[i] == %s[j]` / `<` advance): that counts the common attributes only '
+                   'if both tuples are increasing under `<`; the clique tuples are %s'
+                   % (A, B, 'tuple(sorted(..)): increasing' if elem == 'sorted' else
+                      'in DOMAIN order (domain.canonical), which is not the order `<` of the attribute names: common attributes are skipped and the '
+                      'separators of the spanning tree are no longer maximal'), construct='weight of the complete clique graph')
+            ok = len({T(t) for t in trees}) == 1
+            ctx.ob('tree-connected', fi, fi.node, ok, 'the junction tree is the spanning tree of that complete clique graph `%s`' % G,
+                   construct='spanning tree of the clique graph')
+            return
         unknown = unknown + ['loop-computed / outer value(s) %s' % free]
     if unknown and w not in want:
         raise AnalysisError('_make_tree: the clique-pair weight `%s` is computed by %s, which this analysis cannot relate to the size of '
